@@ -185,10 +185,20 @@ func opaqueNamed(t types.Type) bool {
 	return false
 }
 
+func opaqueSort(t types.Type) string {
+	if isNamed(t, "sync/atomic", "Bool") {
+		return "Bool"
+	}
+	if isNamed(t, "sync/atomic", "Value") {
+		return "Iface"
+	}
+	return "Int"
+}
+
 func (c *Ctx) sortOf(t types.Type) string {
 	t = types.Unalias(t)
 	if opaqueNamed(t) {
-		return "Int"
+		return opaqueSort(t)
 	}
 	switch u := t.Underlying().(type) {
 	case *types.Basic:
@@ -250,7 +260,7 @@ func (c *Ctx) structSort(t types.Type, u *types.Struct) string {
 func (c *Ctx) zero(t types.Type) string {
 	t = types.Unalias(t)
 	if opaqueNamed(t) {
-		return "0"
+		return c.zeroOfSort(opaqueSort(t))
 	}
 	switch u := t.Underlying().(type) {
 	case *types.Basic:
@@ -440,7 +450,11 @@ func (o *Oblig) Query(withModel bool) string {
 	c := o.ctx
 	var b strings.Builder
 	b.WriteString("(set-option :produce-models true)\n(set-logic ALL)\n")
-	for _, d := range c.decls[:o.NDecl] {
+	nd := o.NDecl
+	if withModel {
+		nd = len(c.decls) // later declarations are harmless and may be named by replay terms
+	}
+	for _, d := range c.decls[:nd] {
 		b.WriteString(d)
 		b.WriteByte('\n')
 	}
